@@ -1,1 +1,12 @@
-// Kani harnesses (cfg(kani) only); pulled in by a #[path] hook in /repo.
+// Kani support for the rcomp binary's harness (cfg(kani) only): the bin crate cannot see Settings' pub(crate)
+// fields, so the observer lives here.  Also: harnesses for grammar index conversions (C01).
+use crate::settings::Settings;
+pub use crate::settings::verif_kani_settings::{snap, Snap};
+
+/// observer used by /verif/units/kx/compiler/main.rs
+pub fn settings_snapshot(s: &Settings) -> Snap {
+    snap(s)
+}
+pub fn settings_strings(s: &Settings) -> (usize, usize) {
+    (s.input_type.len(), s.exclude.len())
+}
